@@ -100,6 +100,8 @@ def run_spec(spec, props=("C03",)):
     tmin = num(spec.get("tmin", 0)); tmax = num(spec.get("tmax", 3.5))
     full = bool(spec.get("full", False))
     stats = all_statuses(spec)
+    if spec.get("ret_subset"):
+        stats = stats[:-1] if len(stats) > 1 else stats      # the caller asks for a subset of the statuses only
     bump = spec.get("bump", 0.0)
     cls = classify(spec)
     He, Je, nodew, edgew = ref_tables(spec, G, bump)
@@ -208,11 +210,16 @@ def run_spec(spec, props=("C03",)):
                         A.add(V("C03", fn, cls, "missing_event", "spec %s state %r: enabled transition to %r (rate %r) never offered" % (name, st, nxt, r_), sg.prefix))
     # per execution
     legal_moves = set()
+    subset = bool(spec.get("ret_subset"))
+    if subset:
+        props = tuple(p_ for p_ in props if p_ not in ("C04", "C10"))   # counts of a status subset do not sum to N
     idx = {s: i for i, s in enumerate(stats)}
     for (a, b, *_r) in spec["H"]:
-        legal_moves.add((idx[a], idx[b]))
+        if a in idx and b in idx:
+            legal_moves.add((idx[a], idx[b]))
     for (ab, ac, *_r) in spec["J"]:
-        legal_moves.add((idx[ab[1]], idx[ac[1]]))
+        if ab[1] in idx and ac[1] in idx:
+            legal_moves.add((idx[ab[1]], idx[ac[1]]))
     legal_hist = {(stats[a], stats[b]) for a, b in legal_moves}
     selfmoves = any(a == b for a, b in legal_moves)
     if selfmoves:
@@ -229,8 +236,13 @@ def run_spec(spec, props=("C03",)):
         out = r.out
         b = [m for m in r.marks if m[1] == "exp"]
         if full:
-            t_, D_ = out.summary()
-            arrs = [t_] + [D_[s] for s in stats]
+            if subset:
+                # the full-data object knows only the requested statuses: compare its per-status counts with the states
+                t_, D_ = out.summary()
+                arrs = [t_] + [D_[s] for s in stats]
+            else:
+                t_, D_ = out.summary()
+                arrs = [t_] + [D_[s] for s in stats]
         else:
             arrs = list(out)
         A.outcomes.add(hsh([np.asarray(a).tolist() for a in arrs]))
@@ -365,6 +377,9 @@ def specs(tier):
                                 IC=list(ic), tmax=2.5, bump=0.2, full=False))
         out.append(dict(fn="simple", name=name, n=3, edges=[(0, 1), (1, 2), (0, 2)], directed=False, H=Hs, J=Js,
                         IC=[alphabet[1 % len(alphabet)]] + [alphabet[0]] * 2, tmin=1.5, tmax=3.5, full=True))
+        # array mode with only a subset of the statuses requested (the full-data object is only defined for complete status lists)
+        out.append(dict(fn="simple", name=name + "+subset", n=3, edges=[(0, 1), (1, 2)], directed=False, H=Hs, J=Js,
+                        IC=[alphabet[1 % len(alphabet)]] + [alphabet[0]] * 2, tmax=3.5, full=False, ret_subset=True))
     for (name, Hs, Js, alphabet) in generated(2 if thorough else 1):
         for (n, es, d) in GRAPHS_Q:
             for ic in itertools.product(alphabet, repeat=n):
